@@ -64,7 +64,7 @@ def run(P, R, tier, cfg):
     if WG not in P.adts:
         raise Broken("anchor missing: " + WG)
     # -------------------------------------------------------------- encapsulation of the state
-    for adt, fields in ((WG, ["current_watermark", "max_timestamp"]), (LH, ["late_count", "dropped_count", "allowed_count", "side_output"]), (WS, ["events", "watermark_gen", "late_handler"])):
+    for adt, fields in ((WG, ["current_watermark", "max_timestamp"]), (LH, ["late_count", "dropped_count", "allowed_count", "side_output"]), (WS, sorted(_ws_roles(P).values()))):
         for v in P.adts[adt]["variants"]:
             for f in v["fields"]:
                 if f["name"] in fields:
@@ -265,6 +265,18 @@ def _counter_events(fn, fields, owner):
     return ev
 
 
+def _flows_to_return(fn, local, depth=0):
+    """local is copied (possibly through single-definition temporaries) into the return place."""
+    if depth > 4:
+        return False
+    for bb in fn.normal_blocks():
+        for st in fn.stmts(bb):
+            if isinstance(st, list) and len(st) > 4 and st[2] == "=" and st[4][0] == "use" and st[4][1][0] in "cm" and st[4][1][1] == [local, []] and not st[3][1]:
+                if st[3][0] == 0 or _flows_to_return(fn, st[3][0], depth + 1):
+                    return True
+    return False
+
+
 def _conservation_handle(P, R, hl):
     ev = _counter_events(hl, ["late_count", "dropped_count", "allowed_count"], LH)
     for (c, recv) in A.calls_with_receiver_field(hl, "side_output", LH):
@@ -275,7 +287,9 @@ def _conservation_handle(P, R, hl):
     # decision aggregates assigned to the return place
     for (bb, j, s) in A.aggregates_of(hl, "LateEventDecision::Drop") + A.aggregates_of(hl, "LateEventDecision::Process") + \
             A.aggregates_of(hl, "LateEventDecision::SideOutput") + A.aggregates_of(hl, "LateEventDecision::Recompute"):
-        if s[3][0] == 0:
+        # directly into the return place, or into the return place of an inlined helper (`fn drop_event(&mut self) -> Decision`)
+        # whose value is then copied to the return place
+        if s[3][0] == 0 or (not s[3][1] and s[3][0] in hl.raw.get("inl_ret", []) and _flows_to_return(hl, s[3][0])):
             ev.setdefault(bb, []).append("ret:" + s[4][2].rsplit("::", 1)[1])
     if hl.loops():
         R.undecide("d", "handle_late_event", "function has loops; path-effect enumeration not applicable", hl)
@@ -289,7 +303,12 @@ def _conservation_handle(P, R, hl):
     }
     seen = set()
     for ex, ss in sets.items():
-        seen |= ss
+        for tup in ss:
+            rets = [e for e in tup if e.startswith("ret:")]
+            rest = [e for e in tup if not e.startswith("ret:")]
+            # counters live in different fields: their order on a path does not matter (late_count first by convention)
+            rest = sorted(rest, key=lambda e: (e != "+late_count", e))
+            seen.add(tuple(rest + rets))
     R.count("late_paths", len(seen))
     for tup in sorted(seen):
         if tup in allowed:
@@ -341,13 +360,32 @@ def _conservation_handle(P, R, hl):
             R.violate("d", "allowed-lateness:guard", "LateEventDecision::Process is not guarded by `watermark.timestamp.saturating_sub(event.timestamp) <= max_lateness`", hl, s[0])
 
 
+def _ws_roles(P):
+    """private fields of WatermarkedStream by the type they hold (names are free to change)."""
+    out = {}
+    for f in P.adts.get(WS, {}).get("variants", [{}])[0].get("fields", []):
+        ty = f["ty"]
+        if ty.endswith("WatermarkGenerator"):
+            out["gen"] = f["name"]
+        elif ty.endswith("LateDataHandler"):
+            out["late"] = f["name"]
+        elif ty.startswith("std::vec::Vec<") and "StreamEvent" in ty:
+            out.setdefault("events", f["name"])
+    return out
+
+
 def _conservation_add_event(P, R, ae, hl, pe):
     if ae.loops():
         R.undecide("d", "add_event", "function has loops", ae)
         return
+    roles = _ws_roles(P)
+    if set(roles) != {"gen", "late", "events"}:
+        R.undecide("d", "add_event", "WatermarkedStream fields by type not identified: %s" % roles, ae)
+        return
+    GEN, EVENTS = "self." + roles["gen"], roles["events"]
     ev = {}
     edge_ev = {}
-    for (c, recv) in A.calls_with_receiver_field(ae, "events", WS):
+    for (c, recv) in A.calls_with_receiver_field(ae, EVENTS, WS):
         if c.name == "std::vec::Vec::push":
             src = fmt_sym(ae.sym_operand(c.args[1]))
             ev.setdefault(c.bb, []).append("push")
@@ -362,7 +400,7 @@ def _conservation_add_event(P, R, ae, hl, pe):
             ev.setdefault(c.bb, []).append("handle_late")
             # second argument must be the *current* watermark
             wm = fmt_sym(ae.sym_operand(c.args[2]))
-            if "current_watermark(self.watermark_gen)" in wm:
+            if "current_watermark(%s)" % GEN in wm:
                 R.hold("c", "handle_late_event receives the generator's current watermark", wm, ae, c.line)
             else:
                 R.violate("c", "add_event:watermark-arg", "handle_late_event is given `%s`, not the generator's current watermark" % wm, ae, c.line)
@@ -372,34 +410,79 @@ def _conservation_add_event(P, R, ae, hl, pe):
         if ae.term(b)[2] != "switch":
             continue
         cond = strip(ae.sym_switch(b))
-        if cond[0] == "call" and cond[1] == WG + "::is_late":
-            args = [fmt_sym(x) for x in cond[2]]
-            if args == ["self.watermark_gen", "event"]:
-                R.hold("c", "add_event branches on watermark_gen.is_late(&event)", fn=ae)
+        # `if gen.is_late(&event)` or `if let Some(wm) = gen.is_late(&event).then_some(..)`: Some <=> late
+        then_some = None
+        if cond[0] == "discr" and strip(cond[1])[0] == "call" and strip(cond[1])[1].endswith(("bool::then_some", "bool::then", "<impl bool>::then_some", "<impl bool>::then")):
+            inner = strip(strip(cond[1])[2][0])
+            if inner[0] == "call" and inner[1] == WG + "::is_late":
+                then_some = inner
+        # meaning-based: any test that, with its helpers inlined, reads `event timestamp < generator's current watermark`
+        meaning = None
+        if A.bool_edges(ae, b) and then_some is None and not (cond[0] == "call" and cond[1] == WG + "::is_late"):
+            cc = A.canon_cmp(A.inline_sym(P, ae.sym_switch(b)))
+            if cc is not None:
+                lt, rt = fmt_sym(cc[1], maxdepth=8), fmt_sym(cc[2], maxdepth=8)
+                ts, wm = "event.metadata.timestamp", GEN + ".current_watermark.timestamp"
+                if cc[0] == "<" and lt == ts and rt == wm:
+                    meaning = True          # true edge = late
+                elif cc[0] == "<=" and lt == wm and rt == ts:
+                    meaning = False         # true edge = on time
+        if meaning is not None:
+            R.hold("c", "add_event branches on `event timestamp < generator's current watermark` (helpers inlined)", fn=ae)
+            f_t, t_t = A.bool_edges(ae, b)
+            edge_ev[(b, t_t, ("sw", "otherwise"))] = ["late" if meaning else "ontime"]
+            edge_ev[(b, f_t, ("sw", 0))] = ["ontime" if meaning else "late"]
+            late_sw = b
+        elif (cond[0] == "call" and cond[1] == WG + "::is_late") or then_some is not None:
+            c0 = then_some if then_some is not None else cond
+            args = [fmt_sym(x) for x in c0[2]]
+            if args == [GEN, "event"]:
+                R.hold("c", "add_event branches on <generator>.is_late(&event)", fn=ae)
             else:
                 R.violate("c", "add_event:is_late-args", "add_event tests is_late(%s)" % ", ".join(args), ae)
-            f_t, t_t = A.bool_edges(ae, b)
-            edge_ev[(b, t_t, ("sw", "otherwise"))] = ["late"]
-            edge_ev[(b, f_t, ("sw", 0))] = ["ontime"]
+            if then_some is None:
+                f_t, t_t = A.bool_edges(ae, b)
+                edge_ev[(b, t_t, ("sw", "otherwise"))] = ["late"]
+                edge_ev[(b, f_t, ("sw", 0))] = ["ontime"]
+            else:
+                ve = A.variant_edges(ae, b) or {}
+                for (tgt, lab) in ae.succ(b):
+                    is_some = (ve.get("Some") == tgt) if "Some" in ve else (ve.get("None") is not None and ve.get("None") != tgt)
+                    edge_ev[(b, tgt, lab)] = ["late" if is_some else "ontime"]
             late_sw = b
         elif cond[0] == "discr" and strip(cond[1])[0] == "call" and strip(cond[1])[1] == hl.name:
             if any(k[0] == b for k in edge_ev) or not ae.dominates(b, b):
                 continue
             if any(e and e[0].startswith("dec:") for e in edge_ev.values()):
                 continue  # later (drop-elaboration) switches on the same decision are correlated by the path enumerator
+            listed = []
             for v, tgt in ae.term(b)[4]:
                 var = A.enum_variant_by_discr(P, "streaming::watermark::LateEventDecision", v)
+                listed.append(var)
                 edge_ev[(b, tgt, ("sw", v))] = ["dec:%s" % var]
+            allv = [x["name"] for x in P.adts["streaming::watermark::LateEventDecision"]["variants"]]
+            rest = [x for x in allv if x not in listed]
+            if rest and ae.blocks[ae.term(b)[5]]["t"][2] != "unreachable":
+                edge_ev[(b, ae.term(b)[5], ("sw", "otherwise"))] = ["dec:" + "|".join(rest)]
     if late_sw is None:
         R.violate("c", "add_event:no-late-branch", "add_event does not branch on watermark_gen.is_late(&event)", ae)
         return
     sets, capped = A.path_event_sets(ae, ev, edge_ev)
     seen = set()
     for ex, ss in sets.items():
-        seen |= ss
+        for tup in ss:
+            # effects on disjoint state commute: compare per path as (branch, decision, sorted effects); an `otherwise` arm of
+            # the decision stands for each variant it covers
+            decs = [e for e in tup if e.startswith("dec:")]
+            base = [e for e in tup if not e.startswith("dec:")]
+            head = [e for e in base if e in ("ontime", "late", "handle_late")]
+            tail = sorted(e for e in base if e not in ("ontime", "late", "handle_late"))
+            alts = decs[0][4:].split("|") if decs else [None]
+            for a in alts:
+                seen.add(tuple(head + (["dec:" + a] if a else []) + tail))
     # drop-flag switches duplicate paths with the same effects; effects are what is compared
     allowed = {
-        ("ontime", "push", "advance"),
+        ("ontime", "advance", "push"),
         ("late", "handle_late", "dec:Drop"),
         ("late", "handle_late", "dec:Process", "push"),
         ("late", "handle_late", "dec:SideOutput"),
@@ -417,12 +500,18 @@ def _conservation_add_event(P, R, ae, hl, pe):
         if need not in seen:
             R.violate("d", "add_event:missing:%s" % ",".join(need), "add_event has no path with effect %s" % (list(need),), ae)
     # pushed values: on-time path pushes the event itself; late paths push the payload of the decision
-    for c, recv in A.calls_with_receiver_field(ae, "events", WS):
+    def _payload_ok(x):
+        x = strip(x)
+        if x[0] == "phi":
+            return all(_payload_ok(a) for a in x[1])
+        t = fmt_sym(x)
+        return t == "event" or (t.startswith(hl.name) and (" as Process.0" in t or " as Recompute.0" in t))
+    for c, recv in A.calls_with_receiver_field(ae, EVENTS, WS):
         if c.name != "std::vec::Vec::push":
             continue
         src = strip(ae.sym_operand(c.args[1]))
         s = fmt_sym(src)
-        if s == "event" or (s.startswith(hl.name) and (" as Process.0" in s or " as Recompute.0" in s)):
+        if _payload_ok(src):
             R.hold("d", "value pushed to events is the offered event (%s)" % s[-60:], fn=ae, line=c.line)
         else:
             R.violate("d", "add_event:pushed-value", "add_event pushes `%s`, not the offered event" % s, ae, c.line)
